@@ -244,14 +244,15 @@ func mustErrorCases() []string {
 	out = append(out, "st.Nope", "st.hidden", "st.name", "st.Inner.Nope", "st!.Nope", "st.Inner.label", "st.Nope.x")
 	// assignment to anything but a $-name (C07 overlaps)
 	out = append(out, "x = 1", "m.a = 1", "1 = 2", "(a) = 1")
-	// results: functions must return exactly (value, error)
-	out = append(out, "fn1()", "fn3()", "fnE(1)")
+	// a returned error aborts evaluation (functions with other result shapes than (value, error) are outside the
+	// statement's domain: they are only required not to panic, see the operator grid)
+	out = append(out, "fnE(1)", "fnE(null)")
 	return out
 }
 
 // TestC03MustError: the listed misuse classes must come back as errors.
 func TestC03MustError(t *testing.T) {
-	run := h.Begin("C03", "must-error", "enumerated misuse templates for each class the statement names (calling a non-function incl. undefined names and null, wrong argument count, spread misuse, arguments of a kind without conversion, negative or inverted string positions, invalid regular expressions, ==/!=/===/!== between two arrays or two maps, missing or unexported struct fields, host functions not returning (value,error) or returning an error), alone and embedded in 6 contexts; oracle: nil value and non-nil error, no panic; every case non-trivial")
+	run := h.Begin("C03", "must-error", "enumerated misuse templates for each class the statement names (calling a non-function incl. undefined names and null, wrong argument count, spread misuse, arguments of a kind without conversion, negative or inverted string positions, invalid regular expressions, ==/!=/===/!== between two arrays or two maps, missing or unexported struct fields, host functions returning an error), alone and embedded in 6 contexts; oracle: nil value and non-nil error, no panic; every case non-trivial")
 	defer run.End(t)
 	wd := startWatchdog(t, run, 30*time.Second)
 	defer wd.close()
